@@ -396,8 +396,41 @@ func genC19Abandon(t *rapid.T) C19Case {
 	return c
 }
 
+// c19Flood builds a "flood" case: n update calls of ONE plugin (plugin 0) are pending at
+// the same time, released together 20 ms after a first holder took the adaptation lock —
+// a lifecycle request relayed through both plugins whose handlers take holdMs each
+// (byRequest), or otherwise simply the first of the updates, UpdateFn taking holdMs per call.
+func c19Flood(n int, byRequest bool, holdMs int, event int32, idx [2]string, calls []C19Call) C19Case {
+	c := C19Case{Plugins: []C19Plugin{{Idx: idx[0]}, {Idx: idx[1]}}}
+	if byRequest {
+		c.Callers = [][]int32{{event}}
+		c.SpinHdlUs = holdMs * 1000
+		c.UpdaterDelayUs = 20000
+	} else {
+		c.SpinUpdUs = holdMs * 1000
+	}
+	for i := 0; i < n; i++ {
+		c.Updaters = append(c.Updaters, C19Updater{Plugin: 0, Calls: []C19Call{calls[i%len(calls)]}})
+	}
+	return c
+}
+
+func genC19Flood(t *rapid.T) C19Case {
+	n := rapid.SampledFrom([]int{17, 17, 18, 20, 24, 32, 40}).Draw(t, "pending")
+	byRequest := rapid.Bool().Draw(t, "behind_request")
+	hold := rapid.IntRange(100, 200).Draw(t, "hold_ms")
+	if !byRequest {
+		hold = rapid.IntRange(10, 30).Draw(t, "hold_ms_update")
+	}
+	idx := [2]string{fmt.Sprintf("%02d", rapid.IntRange(0, 99).Draw(t, "idx")), fmt.Sprintf("%02d", rapid.IntRange(0, 99).Draw(t, "idx"))}
+	calls := rapid.SliceOfN(genC19Call(false), 1, 4).Draw(t, "calls")
+	return c19Flood(n, byRequest, hold, rapid.SampledFrom([]int32{4, 8, 10, 1, 6, 12}).Draw(t, "event"), idx, calls)
+}
+
 func genC19(t *rapid.T) C19Case {
 	switch rapid.IntRange(0, 24).Draw(t, "shape") {
+	case 20:
+		return genC19Flood(t)
 	case 24:
 		return genC19Queue(t)
 	case 21, 22, 23:
@@ -606,6 +639,8 @@ type c19Exec struct {
 	spans           []c19Span
 	overlaps        []string
 	inUpdate        int
+	probeTag        string
+	probeHits       int
 	fstarts         []c19FS
 	launchedTrouble string
 	abMarks         *c19AbMarks
@@ -677,8 +712,12 @@ func (x *c19Exec) handler(name, what, tag string) {
 	}
 	x.inHandler++
 	x.curHdl = name + "/" + what + " for " + tag
+	probing := x.probeTag != "" && tag == x.probeTag
+	if probing {
+		x.probeHits++
+	}
 	x.mu.Unlock()
-	if x.c.SpinHdlUs > 0 {
+	if x.c.SpinHdlUs > 0 && !probing {
 		time.Sleep(time.Duration(x.c.SpinHdlUs) * time.Microsecond)
 	}
 	x.mu.Lock()
@@ -852,7 +891,31 @@ func (x *c19Exec) failedStart(fi int, fs C19FailedStart) bool {
 		}
 	}
 	if unblock != nil {
-		return unblock()
+		ok := unblock()
+		// a call that ran into the watchdog while the runtime was busy: give it a moment now
+		// that the runtime is idle, so that the history shows whether it reaches the callback
+		prefix := fmt.Sprintf("k%df%dc", x.no, fi)
+		deadline := time.Now().Add(2 * time.Second)
+		for time.Now().Before(deadline) {
+			x.mu.Lock()
+			blocked, arrived := false, false
+			for _, is := range x.issued {
+				if is.Kind == kFailedStart && is.Blocked && strings.HasPrefix(is.Tag, prefix) {
+					blocked = true
+				}
+			}
+			for _, sn := range x.seen {
+				if strings.HasPrefix(sn.Tag, prefix) {
+					arrived = true
+				}
+			}
+			x.mu.Unlock()
+			if !blocked || arrived {
+				break
+			}
+			time.Sleep(5 * time.Millisecond)
+		}
+		return ok
 	}
 	return true
 }
@@ -1263,8 +1326,23 @@ func runC19Once(c C19Case) (ev.Outcome, int) {
 	// likely dropped for being late on an overloaded machine (its handler may then have run
 	// outside the request): such an execution is not judged
 	if short {
+		// the stubs learn of a lost connection asynchronously; the runtime's list is what
+		// counts: one more request (normal timeout again) must reach every plugin
+		expect := 0
 		for _, l := range live {
-			if l != nil && l.ok && l.p.Closed.Load() > 0 {
+			if l != nil && l.ok {
+				expect++
+			}
+		}
+		x.mu.Lock()
+		x.probeTag = fmt.Sprintf("k%dprobe", x.no)
+		x.mu.Unlock()
+		_, perr := fire(rt.A, 1, x.probeTag)
+		x.mu.Lock()
+		hits := x.probeHits
+		x.mu.Unlock()
+		for _, l := range live {
+			if l != nil && l.ok && (l.p.Closed.Load() > 0 || hits != expect || perr != nil) {
 				for _, l := range live {
 					if l != nil && l.p.Stub != nil {
 						l.p.Stub.Stop()
@@ -1442,6 +1520,9 @@ func judgeC19(c C19Case, h *c19Hist) (ev.Outcome, int) {
 		}
 		if is.Panic != "" {
 			return fail(atOnce, "UpdateContainers (call %s, issued %s) panicked: %s", is.Where, c19KindText[is.Kind], is.Panic)
+		}
+		if is.Kind == kFailedStart && len(seenByTag[is.Tag]) > 0 {
+			return fail(atOnce, "an update sent on a stub whose Start() had failed (%s) reached the runtime's UpdateFn %d times (%s; returned within the watchdog: %v, err %q)", is.Mode, len(seenByTag[is.Tag]), is.Tag, !is.Blocked, is.Err)
 		}
 		if is.Blocked {
 			return fail(watchdog, "UpdateContainers (call %s, plugin %s) issued %s did not return within 10 s", is.Where, is.Plugin, c19KindText[is.Kind])
@@ -1635,6 +1716,37 @@ func judgeC19(c C19Case, h *c19Hist) (ev.Outcome, int) {
 	if ur > 0 {
 		classes["overlap:update-request"] = true
 	}
+	// the largest number of update calls of one plugin pending at the same moment (by the
+	// issuers' marks)
+	maxPending := 0
+	byPlugin := map[string][][2]int64{}
+	for _, is := range h.Issued {
+		if is.Kind == kUpdater && is.Start != 0 {
+			byPlugin[is.Plugin] = append(byPlugin[is.Plugin], [2]int64{is.Start, is.End})
+		}
+	}
+	for _, iv := range byPlugin {
+		for _, a := range iv { // the maximum is attained at some interval's start
+			n := 0
+			for _, b := range iv {
+				if b[0] <= a[0] && a[0] < b[1] {
+					n++
+				}
+			}
+			if n > maxPending {
+				maxPending = n
+			}
+		}
+	}
+	switch {
+	case maxPending >= 33:
+		classes["pending-updates-of-one-plugin:33+"] = true
+		fallthrough
+	case maxPending >= 17:
+		classes["pending-updates-of-one-plugin:17+"] = true
+	case maxPending >= 5:
+		classes["pending-updates-of-one-plugin:5-16"] = true
+	}
 	if c.RequestTimeoutMs > 0 {
 		// how long did an update wait (issuer's marks cannot tell; use the plan): class only
 		if c.UpdaterDelayUs > 0 {
@@ -1659,3 +1771,36 @@ func judgeC19(c C19Case, h *c19Hist) (ev.Outcome, int) {
 }
 
 func TestProp_C19(t *testing.T) { ev.Run(t, "C19", genC19, runC19) }
+
+// TestExh_C19 is a directed sweep of the flood shape: 17, 24 and 40 update calls of one
+// plugin pending together, behind a held request and behind the plugin's own first update.
+func TestExh_C19(t *testing.T) {
+	if os.Getenv("VERIF_REPLAY") != "" {
+		t.Skip("replay runs TestProp_C19 only")
+	}
+	r := ev.Get("C19")
+	defer r.Flush()
+	calls := []C19Call{
+		{Updates: []C19Upd{{ID: "a"}, {ID: "b", Ignore: true}}, Fail: []int{1}},
+		{Updates: []C19Upd{{ID: "c", NoLinux: true}}},
+		{Updates: []C19Upd{{ID: "d"}, {ID: "e"}, {ID: "f"}}, Err: "not enough exclusive CPUs", ErrForm: "status", ErrCode: 8},
+	}
+	for _, n := range []int{17, 24, 40} {
+		for _, byRequest := range []bool{true, false} {
+			hold := 20
+			if byRequest {
+				hold = 150
+			}
+			c := c19Flood(n, byRequest, hold, 4, [2]string{"10", "20"}, calls)
+			raw := ev.Snapshot(c)
+			r.Journal(raw)
+			o := runC19(c)
+			r.ClearJournal()
+			o.Classes = append([]string{"flood-sweep"}, o.Classes...)
+			r.Record(raw, o)
+			if o.Fail != "" {
+				t.Fatalf("C19 flood sweep (%d pending, behind request %v): %s", n, byRequest, o.Fail)
+			}
+		}
+	}
+}
